@@ -240,7 +240,7 @@ func init() {
 						x.Violation("foreign-id", "step %d: request %d got %v from its rule", step, r.id, v)
 						return false
 					}
-					if r.kind != 0 && r.kind != 9 && r.kind != 12 {
+					if r.kind != 0 && r.kind != 9 && r.kind != 12 && r.kind != 13 {
 						faultDone = true
 					}
 					return true
@@ -253,7 +253,21 @@ func init() {
 					x.Violation("cross-talk", "step %d: a rule computed from its request's own map and slice a value that is not its request's (an argument or element of another request was used); events %v", step, h.log.Snapshot())
 					return false
 				}
-				if r.kind == 0 || r.kind == 9 || r.kind == 12 {
+				if r.kind == 9 || r.kind == 12 || r.kind == 13 {
+					// unusual requests (data under the name and type of a pool api, entries with a nil
+					// value or an empty key, an integer literal key on an unsigned-keyed map): C17 does
+					// not say whether they succeed; they must not panic, must not see another request's
+					// data, and their instance must come back (checked by the capacity invariant)
+					if r.res.Err == nil && r.kind != 13 && fmt.Sprint(r.res.Map["main"]) != fmt.Sprint(r.id) {
+						x.Violation("foreign-id", "step %d: request %d (%s) got %v from its rule: it read another request's injected object (two in-flight requests shared an instance) or lost its result; result %v", step, r.id, r.call.Method, r.res.Map["main"], sortedMap(r.res.Map))
+						return false
+					}
+					if r.res.Err != nil {
+						x.Class(fmt.Sprintf("unusual-request-kind-%d-rejected", r.kind))
+					}
+					return true
+				}
+				if r.kind == 0 {
 					if r.res.Err != nil {
 						x.Violation("healthy-request-failed", "step %d: healthy request %d (%s) failed: %s", step, r.id, r.call.Method, truncate(r.res.Err.Error(), 300))
 						return false
